@@ -230,6 +230,13 @@ def gen_scenario(rng, stream):
                 if j["type"] != "fixed" and rng.random() < 0.8:
                     st[j["name"]] = rng.uniform(j["lo"], j["hi"]) * rng.choice([1.0, 1.0, 1.3])  # sometimes beyond limits (clipped by tm)
             steps.append(st)
+            # creeping motion: the same joints moved again by a tiny increment (1e-4 … 1e-9); a pose refresh that
+            # skips "unchanged" poses by a tolerance test drops these
+            if st and rng.random() < 0.6:
+                for _k in range(rng.choice([1, 2])):
+                    eps = 10.0 ** (-rng.randrange(4, 10))
+                    st = {k: v + eps for k, v in st.items()}
+                    steps.append(st)
         sc = {"kind": "urdf", "urdf": urdf, "steps": steps}
         nq = len(steps) + 1
         sc["queries"] = [gen_queries(rng, False, [], 0.8) for _ in range(nq)]
@@ -245,6 +252,17 @@ def gen_scenario(rng, stream):
             if rng.random() < 0.7:
                 st[c["frame"]] = lattice_pose(rng) if lattice else rand_pose(rng, 0.8)
         steps.append(st)
+        if st and not lattice and rng.random() < 0.5:
+            # creeping motion: a tiny extra translation/rotation of the same frames
+            eps = 10.0 ** (-rng.randrange(4, 10))
+            st2 = {}
+            for f, A in st.items():
+                B = np.array(A, dtype=float)
+                B[:3, 3] += eps
+                c_, s_ = np.cos(eps), np.sin(eps)
+                B[:3, :3] = B[:3, :3].dot(np.array([[c_, -s_, 0.0], [s_, c_, 0.0], [0.0, 0.0, 1.0]]))
+                st2[f] = B.tolist() if isinstance(A, list) else B
+            steps.append(st2)
     sc = {"kind": "add", "colliders": cols, "whitelists": gen_whitelists(rng, frames), "steps": steps,
           # initial collider pose differs from the manager's transform in some scenarios
           "stale_init": rng.random() < 0.3, "dup": None}
